@@ -70,6 +70,30 @@ def check(ctx, case):
 			if [bits(v) for v in bv] != [bits(v) for v in vals]:
 				pf.append(f'distances through {route} differ from the two-signature distances: {[bits(v) for v in bv]} vs {[bits(v) for v in vals]}')
 		return lines, pf
+	if kind == 'bulk-mixed':
+		# one side narrow, the other wide with values congruent to the narrow side's modulo 2^16 / 2^32: the packed collection keeps ITS
+		# integer type, the query its own; through every bulk route the numbers are those of the two-signature distance
+		from gambit.kmers import KmerSpec
+		from gambit.sigs import SignatureArray, SignatureList
+		a, b, da, db = case['a'], case['b'], case['da'], case['db']
+		A, B = _arr(a, da), _arr(b, db)
+		jd = metric.jaccarddist
+		vals = [jd(A, B), jd(B, A), jd(B, A), jd(A, A), jd(A, A)]
+		lines = [f'c15.triple {nats(a)} {nats(b)} {nats(a)} ' + ' '.join(str(bits(v)) for v in vals)]
+		ks = KmerSpec(11, 'ATGAC')
+		pf = []
+		try:
+			for cont in ('array', 'list'):
+				mk = (lambda xs, dt: SignatureArray(xs, ks, dtype=dt)) if cont == 'array' else (lambda xs, dt: SignatureList(xs, ks, dtype=dt))
+				refsB, refsA = mk([B, B], db), mk([A], da)
+				got = [metric.jaccarddist_array(A, refsB)[1], metric.jaccarddist_array(B, refsA)[0],
+				       metric.jaccarddist_matrix([A, B], refsB)[0][0], metric.jaccarddist_matrix([B], refsA, chunksize=1)[0][0]]
+				want = [vals[0], vals[1], vals[0], vals[1]]
+				if [bits(x) for x in got] != [bits(x) for x in want]:
+					pf.append(f'{cont}: a {da} / {db} pair through the bulk interfaces gives {[bits(x) for x in got]}, the two-signature distances are {[bits(x) for x in want]}')
+		except Exception as e:
+			return lines, [f'bulk-mixed raised {exc_kind(e)}: {e}']
+		return lines, pf
 	if kind == 'addcommon':
 		a, b, x = case['a'], case['b'], case['x']
 		A, B = _arr(a, 'u8'), _arr(b, 'u8')
@@ -106,6 +130,11 @@ def run(ctx):
 	sub({'kind': 'addcommon-sizes', 'N': N, 'M': M, 'I': N + M - U}, 'witness-C15-F1')
 	for (N, M, I) in [(1000, 1000, 10), (2 ** 22, 2 ** 22 - 3, 2 ** 21), (3000000, 4000000, 123456), (2 ** 22, 2 ** 22 - 2, 0), (5, 3, 3)]:
 		sub({'kind': 'addcommon-sizes', 'N': N, 'M': M, 'I': I}, 'addcommon-sizes<2^23', True)
+	# mixed widths through the bulk interfaces, values aliasing modulo the narrow type's width
+	from props.c02 import gen_pair_alias
+	for j in range(ctx.q(150, 1500)):
+		a, b, da, db = gen_pair_alias(rng)
+		sub({'kind': 'bulk-mixed', 'a': a, 'b': b, 'da': da, 'db': db}, 'bulk-mixed-widths', bool(a) and bool(b))
 	# exhaustive triples over a 5-element universe
 	univ = [0, 3, 4, 1000, 65535]
 	subsets = [[univ[i] for i in range(5) if m >> i & 1] for m in range(32)]
